@@ -168,6 +168,9 @@ def _clauses_one(chk, func, pi, res, default_case):
 
 
 def obligations(chk):
+    # the callee contract of inspection.unwrap (result = every wrapper layer removed; idempotent) is proved here too
+    from props import unwrap_contract
+    unwrap_contract.obligations(chk)
     I = make_interp()
     structural_obligations(chk, I)
     axioms = callee_contracts()
